@@ -461,3 +461,31 @@ package node
 //@   modifies *
 //@ loop 1
 //@   invariant true
+
+// secondary-index query (hidx.from): a merge handler, run by the server fan-out in goroutines without recover
+//@ property C11
+//@ func parseSingleCond(condData []byte, indexCond *rockredis.IndexCondition) ([]byte, error)
+//@   requires indexCond != nil
+//@   modifies *indexCond
+//@ func parseIndexQueryWhere(whereData []byte) ([]byte, *rockredis.IndexCondition, error)
+//@   ensures result2 == nil ==> result1 != nil
+//@ func parseIndexQueryLimit(args [][]byte) (int, int, error)
+//@ func (nd *KVNode) hindexSearchCommand(cmd redcon.Command) (interface{}, error)
+//@   requires nd != nil && nd.store != nil && nd.rn != nil && len(cmd.Args) >= 1
+//@   modifies *
+//@ loop 1
+//@   invariant true
+//@ loop 2
+//@   invariant true
+//@ loop 3
+//@   invariant true
+//@ loop 4
+//@   invariant true
+//@ loop 5
+//@   invariant true
+//@ func (nd *KVNode) fullScanCommand(cmd redcon.Command) (interface{}, error)
+//@   requires nd != nil && nd.store != nil && len(cmd.Args) >= 1
+//@   modifies *
+//@ func (nd *KVNode) existsCommand(cmd redcon.Command) (interface{}, error)
+//@   requires nd != nil && nd.store != nil && len(cmd.Args) >= 1
+//@   modifies *
